@@ -109,6 +109,8 @@ type G struct {
 
 	chIdx int // index assigned to the channel op in flight
 
+	wasBlocked bool
+
 	ioMode int
 	ioErr  error
 
@@ -682,9 +684,18 @@ func (s *Sim) collect() {
 		seen[g] = true
 		s.onArrive(g)
 	}
+	// a goroutine that was blocked inside an operation and has now arrived was
+	// woken by another goroutine's operation (direct hand-off, close, Done)
+	for _, g := range arr {
+		if g.wasBlocked {
+			g.wasBlocked = false
+			s.Probes["blocked_goroutine_woken_by_peer"]++
+		}
+	}
 	for _, g := range s.byID {
 		if g.state == gRunning && !seen[g] {
 			g.state = gBlocked
+			g.wasBlocked = true
 			s.logf("g%d blocks in %s#%d", g.ID, g.pend.describe(), s.label(g.pend.obj, g.pend.keep))
 		}
 	}
@@ -905,9 +916,31 @@ func (s *Sim) release(g *G) {
 			g.stamp = 2 * s.steps
 		}
 	}
+	if p.phase == phPre && p.kind == KStart && !g.Client {
+		for _, o := range s.byID {
+			if o != g && o.SpawnSite == g.SpawnSite && o.state == gExited {
+				s.Probes["goroutine_started_after_sibling_exited"]++
+				break
+			}
+		}
+	}
 	g.state = gRunning
 	s.cur = g
 	g.wake <- struct{}{}
+}
+
+// AliveAt counts goroutines spawned at a site with the given prefix that
+// have not exited (for reach probes evaluated by clients).
+func (s *Sim) AliveAt(sitePrefix string) int {
+	s.mu.Lock()
+	defer s.mu.Unlock()
+	n := 0
+	for _, g := range s.byID {
+		if !g.Client && strings.HasPrefix(g.SpawnSite, sitePrefix) && g.state != gExited {
+			n++
+		}
+	}
+	return n
 }
 
 // finishLocked is called when nothing is runnable any more.
